@@ -16,14 +16,19 @@ def obligations(tier, seed):
     over_grid_q = [dict(CLS1=0, TYP1=3, KSLOTS=k) for k in (16, 17)]
     over_grid_t = [dict(CLS1=c, TYP1=t, KSLOTS=k) for (c, t) in ((0, 3), (3, 0x17), (2, 0)) for k in (15, 16, 17, 18, 20)]
     return [
-        Ob("xds_demux_step", func="h_xds_step", unwind=40, nafs=True, solver="cadical", flags=["--slice-formula"], tier="thorough",
-           desc="INV-STEP: from every demux state satisfying the invariant (every sub-packet count in {0} u [2,34], curr_sp NULL or a started slot of class 0..3) "
-                "one arbitrary byte pair (all 65536) keeps the invariant, makes at most one delivery, and the delivered packet obeys the documented contract "
-                "(1..32 bytes, NUL terminated, class <= MISC); all array/pointer checks on the exact-size demux object",
-           encodes=["vbi_xds_demux_feed", "_vbi_xds_demux_init", "vbi_xds_demux_reset", "vbi_unpar8"],
-           bounds="one step; state fully symbolic (168 sub-packets x 35 bytes); histories of any length by induction over the stated invariant",
-           assumes=["representation invariant sp_inv + curr_sp in slots (shown initial by xds_demux_init, inductive by this obligation)"],
-           reach=["end", "delivered"], timeout=1800, mem_gb=12, vin_size=vin_step, **common),
+        Ob("xds_demux_step", func="h_xds_step", unwind=40, solver="cadical", flags=["--max-field-sensitivity-array-size", "24"],
+           desc="INV-STEP + step contract: from every demux state satisfying the invariant (slot counts in {0} u [2,34]; curr_sp NULL or the started slot named by "
+                "curr.xds_class/subclass, class <= MISC) one byte pair (first byte = grid value incl. a parity error, second byte arbitrary) yields exactly the "
+                "EIA-608 reassembly step: parity error/unknown header/caption code end the current packet, start resets the named slot, continue resumes a started one, "
+                "content appends (discarded beyond 32 bytes), terminator delivers iff checksum good and >= 1 byte, with class/type of the packet, length, bytes, "
+                "NUL terminated; no other slot is ever touched; invariant preserved; all array/pointer checks on the exact-size demux object",
+           encodes=["vbi_xds_demux_feed", "vbi_unpar8"],
+           bounds="one step; state fully symbolic (6792-byte image); first byte case-split on the grid (every dispatch class of the switch, both parities of header codes, "
+                  "invalid classes), second byte symbolic; histories of any length by induction over the stated invariant (initial: xds_demux_init)",
+           assumes=["representation invariant (shown initial by xds_demux_init, inductive by this obligation), assumed only for the three slots the step can depend on"],
+           grid=[dict(C1FIX=v) for v in ("-0x41", "0x00", "0x01", "0x02", "0x05", "0x07", "0x08", "0x09", "0x0E", "0x0F", "0x14", "0x20", "0x41", "0x7F")],
+           quick_grid=[dict(C1FIX=v) for v in ("-0x41", "0x01", "0x04", "0x07", "0x08", "0x0B", "0x0F", "0x14", "0x41")],
+           reach=["end", "frame"], timeout=900, mem_gb=4, vin_size=vin_step, **common),
         Ob("xds_demux_init", func="h_xds_init", unwind=40, nafs=True, vin_size=vin_step,
            desc="INIT |= invariant: _vbi_xds_demux_init on dirty memory establishes the invariant used by xds_demux_step",
            encodes=["_vbi_xds_demux_init", "vbi_xds_demux_reset"], bounds="none", timeout=120, **common),
